@@ -312,7 +312,18 @@ func HookRead(path string) (fail bool) {
 func HookWrite(path string) (mode int) {
 	mu.Lock()
 	defer mu.Unlock()
+	writes[path]++
 	return faults[path].writeMode
+}
+
+var writes = map[string]int{}
+
+// FileWrites is the number of write calls (successful or not) made on path through the integer
+// file helpers so far.
+func FileWrites(path string) int {
+	mu.Lock()
+	defer mu.Unlock()
+	return writes[path]
 }
 
 // ---- virtual clock ----
